@@ -96,21 +96,22 @@ def write_stl(path, v, f):
         fh.write("endsolid s\n")
 
 
-def build(shape, winding, source, tmpdir=None):
+def build(shape, winding, source, tmpdir=None, space=None):
     """the real TrimeshPolyhedron for `shape` with `winding` in {'out','in'} built from `source` in {'arrays','file'}"""
     from torchphysics.problem.domains.domain3D.trimesh_polyhedron import TrimeshPolyhedron
     from torchphysics.problem.spaces import Space
     v, f = SHAPES[shape]
+    space = space if space is not None else Space({"x": 3})
     if winding == "in":
         f = flipped(f)
     if source == "arrays":
-        return TrimeshPolyhedron(Space({"x": 3}), vertices=v, faces=f)
+        return TrimeshPolyhedron(space, vertices=v, faces=f)
     if tmpdir is None:
         import tempfile
         tmpdir = tempfile.mkdtemp(prefix="tpmc_mesh_")
     path = os.path.join(tmpdir, "%s_%s.stl" % (shape, winding))
     write_stl(path, v, f)
-    dom = TrimeshPolyhedron(Space({"x": 3}), file_name=path, file_type="stl")
+    dom = TrimeshPolyhedron(space, file_name=path, file_type="stl")
     if tmpdir.startswith(os.path.join(__import__("tempfile").gettempdir(), "tpmc_mesh_")):
         __import__("shutil").rmtree(tmpdir, ignore_errors=True)
     return dom
